@@ -33,6 +33,7 @@ const (
 	VerifPointClientConnStarted = 16 // client connect: connection goroutine started, before the connection is added to the client
 	VerifPointRPCClientPolled   = 17 // rpc client channel Receive: polled empty, before the wait
 	VerifPointRPCServerPolled   = 18 // rpc server channel Receive: polled empty, before the wait
+	VerifPointClientRoutineRun  = 19 // client connect(): connect routine started, before it is registered
 )
 
 // VerifYieldHook is called at the schedule points above (build tag verif only),
